@@ -4,6 +4,7 @@ package config_test
 
 import (
 	"fmt"
+	"net"
 	"reflect"
 	"strings"
 	"testing"
@@ -83,6 +84,10 @@ func vbC01Case(t *testing.T, out *verifh.Out, id, toml string, cross *int) {
 	g := &vbGen{r: verifh.NewRand(verifh.Seed(), id), tags: map[string]bool{}}
 	if toml == "" {
 		toml = g.toml()
+		if g.r.Chance(15) {
+			// the same stanza for a group of interfaces
+			toml = strings.Replace(toml, "name = \"eth0\"\n", "names = [\"eth0\", \"eth1\", \"eth2\"]\n", 1)
+		}
 	} else {
 		g.tag("stream:cross-product")
 	}
@@ -108,6 +113,20 @@ func vbC01Case(t *testing.T, out *verifh.Out, id, toml string, cross *int) {
 	g.tag("parse:accepted")
 	ifi := cfg.Interfaces[0]
 	vbInject(&ifi, s)
+	if len(cfg.Interfaces) > 1 {
+		// a `names` group: every interface of the group is prepared with ITS OWN system state (as Prepare
+		// does per interface); preparing the others afterwards must not change what this one advertises
+		g.tag("names-group")
+		for k := 1; k < len(cfg.Interfaces); k++ {
+			other := g.sys(epoch)
+			other.fwd = !s.fwd
+			if len(other.mac) == 6 {
+				other.mac = append(net.HardwareAddr(nil), other.mac...)
+				other.mac[5] ^= 0xff
+			}
+			vbInject(&cfg.Interfaces[k], other)
+		}
+	}
 	st := &vbStr{}
 	ifaceTerm := vbIface(ifi, st, epoch) // rendered before anything is built
 
